@@ -57,7 +57,7 @@ theorem irr_ok {T : TextOracle} {r : Replay} {s : Start} {gk : Option GeckoBlock
   simp only [irrCheck, Bool.and_eq_true, decide_eq_true_eq, List.all_eq_true, Bool.or_eq_true, Bool.not_eq_true',
     List.isEmpty_iff, Option.isSome_iff_exists, Bool.and_eq_false_iff, decide_eq_false_iff_not, Option.isNone_iff_eq_none] at hc
   obtain ⟨⟨⟨⟨⟨⟨⟨⟨⟨⟨h1, h2⟩, h3⟩, hs⟩, he⟩, hsp⟩, h4⟩, h5⟩, hpre⟩, h6⟩, h7⟩ := hc
-  refine ⟨hb, fun e he => ?_, h2, h3, hs, he, fun g hg => ?_, longerb_sound _ _ h4, h5, fun u hu e he => ?_, fun hj => ?_, h7⟩
+  refine ⟨hb, fun e he => ?_, h2, h3, hs, he, fun g hg => ?_, ⟨_, longerb_sound _ _ h4, Or.inl rfl⟩, h5, fun u hu e he => ?_, fun hj => ?_, h7⟩
   · have := h1 e he; exact ⟨this.1.1, this.1.2, this.2⟩
   · rcases hsp with h | h
     · rw [hg] at h; cases h
@@ -122,6 +122,63 @@ theorem exampleIrr_N :
        junk := [] } : Irr).OK T0
       (exReplay (exBlock 3 17 760) (exFrames [-123, -122, -122] 17 32 2 16 1 true) [2, 255, 0, 1, 255, 255]) (startOf (exBlock 3 17 760)) none :=
   irr_ok example_N _ (by decide +kernel)
+
+/-- a non-canonical order inside a frame: the item events first, then the pre-frame and the post-frame events -/
+def itemsFirst (o : FrameOcc) : List BEv :=
+  o.items.map BEv.item ++ ((presentFrom 0 o.chars).map (fun co => BEv.pre co.1 co.2.pre) ++
+    (presentFrom 0 o.chars).map (fun co => BEv.post co.1 co.2.post))
+
+theorem filterMap_none' {α β} (l : List α) : l.filterMap (fun _ => (none : Option β)) = [] := by
+  induction l with
+  | nil => rfl
+  | cons a t ih => simp [List.filterMap_cons, ih]
+
+theorem itemsFirst_ok (v : Ver) (shape : List PortOccupancy) (o : FrameOcc) (ho : o.OK v (nSlots shape)) :
+    BodyOK v (nSlots shape) o (itemsFirst o) := by
+  have hc := canonBody_ok v shape o ho
+  refine ⟨?_, ?_, ?_⟩
+  · intro e he
+    apply hc
+    simp only [itemsFirst, canonBody, List.mem_append] at he ⊢
+    rcases he with h | h | h
+    · exact Or.inl (Or.inr h)
+    · exact Or.inl (Or.inl h)
+    · exact Or.inr h
+  · intro c
+    have e1 : (itemsFirst o).filterMap BEv.cev = (canonBody o).filterMap BEv.cev := by
+      simp [itemsFirst, canonBody, List.filterMap_append, List.filterMap_map, Function.comp_def, BEv.cev, filterMap_none']
+    rw [e1]
+  · simp [itemsFirst, canonBody, List.filterMap_append, List.filterMap_map, Function.comp_def, BEv.itemRow, filterMap_none']
+
+/-- **events inside a frame in another order** (3.16.0): every frame's item events come before its character events, unknown
+    events are spliced in between, the Ice Climbers follower is absent from the second occurrence -/
+theorem exampleIrr_P :
+    let r := exReplay (exBlock 3 16 760) (exFrames [-123, -122, -122] 17 32 2 16 1 true) [2, 255, 0, 1, 255, 255]
+    let s := startOf (exBlock 3 16 760)
+    let es := (r.frames.map fun o => (o, itemsFirst o)).flatMap fun ob => frameEventsP s.version (portOccupancy s) ob.1 ob.2
+    ({ table := canonTableAny s.version 760 6 none ++ [(0x50, 3), (0x51, 1)], mixed := spliceUnknown es, junk := [] } : Irr).OK T0 r s none := by
+  intro r s es
+  have hb : r.WFAny T0 s none := example_A
+  have hperm : Permuted s.version (portOccupancy s) r (r.frames.map fun o => (o, itemsFirst o)) := by
+    refine ⟨by simp [List.map_map, Function.comp_def], ?_⟩
+    intro ob hob
+    obtain ⟨o, ho, rfl⟩ := List.mem_map.mp hob
+    exact itemsFirst_ok _ _ o (hb.frames o ho)
+  have h30 : s.version.gte 3 0 = true := by decide +kernel
+  refine ⟨hb, ?_, (by decide +kernel), (by decide +kernel), (by decide +kernel), (by decide +kernel), (fun g hg => by cases hg),
+    ⟨es, longerb_sound _ _ (by decide +kernel), Or.inr ⟨h30, _, hperm, rfl⟩⟩, ?_, (fun u hu => by cases hu), (fun hj => absurd rfl hj), (by decide +kernel)⟩
+  · intro e he
+    have : (canonTableAny s.version 760 6 none ++ [(0x50, 3), (0x51, 1)]).all (fun e => decide (e.1 < 256) && decide (0 < e.2) && decide (e.2 < 65536)) = true := by
+      decide +kernel
+    have := List.all_eq_true.mp this e he
+    simp only [Bool.and_eq_true, decide_eq_true_eq] at this
+    exact ⟨this.1.1, this.1.2, this.2⟩
+  · intro e he
+    have : (spliceUnknown es).all (fun e => decide (e.1 < 256) && decide ((e.1, e.2.length) ∈ canonTableAny s.version 760 6 none ++ [(0x50, 3), (0x51, 1)])) = true := by
+      decide +kernel
+    have := List.all_eq_true.mp this e he
+    simp only [Bool.and_eq_true, decide_eq_true_eq] at this
+    exact this
 
 /-- the conclusion of `C17_any` holds of the 2.2.0 example with unknown events -/
 theorem exampleIrr_B_fixedpoint :
